@@ -46,6 +46,13 @@ def parse_check(ctx):
         r3, s3 = objfam.obj_edges(ctx, 'C18')
         viol += list(s3['violations'])
         extra['get_set_calls_compared'] = s3['compared']
+    if pid in ('C01', 'C06') and ctx.hooks:
+        # the same obligations under every interleaving of two v2.0 calls around the pooled buffer (M4 gate replay)
+        from . import poolfam
+        rp = ctx.tlc('MC_Pool', poolfam.cfg(ctx, coarse=True, det=True, hist=True, n=8 if not thorough else 12), name='MC_Pool_sched_' + pid, timeout=6000)
+        sp = ctx.harness('sched', prop=pid, **{'in': rp['out']})
+        viol += list(sp['violations'])
+        extra['gate_replay'] = dict(sp['compared'], schedules=sp['info'].get('schedules', 0))
     if thorough or pid == 'C01':
         # small-step run: every cursor state of the automata is a TLC state; the walk terminates
         cfg2 = CFG % dict(seed=ctx.seed, K=1, maxdev=1, fam='defects' if not thorough else FAM[pid], big='FALSE')
